@@ -29,6 +29,7 @@ type Program struct {
 	modSets   map[*ssa.Function]*modSet
 	modBusy   map[*ssa.Function]bool
 	mutableGlobals map[string]bool
+	errGlobals     map[string]int // immutable globals initialised by errors.New / fmt.Errorf: unique id
 	globalsByObj   map[types.Object]*ssa.Global
 	NilChecks bool
 	specErrs  []string
@@ -178,6 +179,38 @@ func rootGlobal(v ssa.Value) *ssa.Global {
 }
 
 func (p *Program) findMutableGlobals() {
+	p.errGlobals = map[string]int{}
+	var names []string
+	for _, fn := range p.funcs {
+		isInit := fn.Name() == "init" && fn.Parent() == nil || strings.HasPrefix(fn.Name(), "init#")
+		if !isInit {
+			continue
+		}
+		for _, b := range fn.Blocks {
+			for _, ins := range b.Instrs {
+				st, ok := ins.(*ssa.Store)
+				if !ok {
+					continue
+				}
+				gl, ok := st.Addr.(*ssa.Global)
+				if !ok {
+					continue
+				}
+				if c, ok := st.Val.(*ssa.Call); ok {
+					if callee := c.Call.StaticCallee(); callee != nil {
+						switch callee.String() {
+						case "errors.New", "fmt.Errorf":
+							names = append(names, gl.String())
+						}
+					}
+				}
+			}
+		}
+	}
+	sort.Strings(names)
+	for i, n := range names {
+		p.errGlobals[n] = i + 1
+	}
 	for _, fn := range p.funcs {
 		isInit := fn.Name() == "init" && fn.Parent() == nil || strings.HasPrefix(fn.Name(), "init#")
 		for _, b := range fn.Blocks {
@@ -245,6 +278,7 @@ func (p *Program) addTypeNames(ms *modSet, t types.Type, fam string, depth int) 
 		return
 	}
 	switch kindOf(t) {
+	case KEmpty:
 	case KStruct:
 		st := structOf(t)
 		for i := 0; i < st.NumFields(); i++ {
